@@ -13,6 +13,9 @@ theorem cmp_size (a b : Int) : cmpOp Gen.Row.guardSizeOp a b = some (decide (a <
 theorem cmp_len (a b : Int) : cmpOp Gen.Row.guardLenOp a b = some (decide (a ≠ b)) := by
   simp [cmpOp, Gen.Row.guardLenOp]
 
+theorem cmp_cap (a b : Int) : cmpOp Gen.Row.capOp a b = some (decide (a > b)) := by
+  simp [cmpOp, Gen.Row.capOp]
+
 theorem or4 (a b c d : Nat) (hb : b < 256) (hc : c < 256) (hd : d < 256) :
     (((0 ||| a <<< 24) ||| b <<< 16) ||| c <<< 8) ||| d <<< 0 = a * 16777216 + b * 65536 + c * 256 + d := by
   have h1 : c <<< 8 ||| d = c <<< 8 + d := (Nat.shiftLeft_add_eq_or_of_lt (by omega) c).symm
@@ -42,12 +45,58 @@ theorem recordSize_cons (p0 p1 l0 l1 l2 l3 : UInt8) (rest : Bytes) :
   rw [this]
   rfl
 
+theorem guard_size (length : Int) (data : Bytes) :
+    guard "size" length data = some (if length < 14 then some .malformed else none) := by
+  simp [guard, verdict, cmp_size, Gen.Row.decHeaderSize]
+
+theorem guard_version (length : Int) (data : Bytes) :
+    guard "version" length data = some (if (byteAt data 0 &&& 240) ≠ 16 then some .malformed else none) := by
+  simp [guard, verdict, Gen.Row.nibbleMask, Gen.Row.nibbleValue]
+
+theorem guard_length (length : Int) (data : Bytes) :
+    guard "length" length data = some (if recordSize data ≠ length - 14 then some .badLength else none) := by
+  simp [guard, verdict, cmp_len, Gen.Row.decHeaderSize]
+
+/-- The guards of `from_bytes_cython` in the extracted order, with the extracted operators, mask,
+value and header size: size, then version nibble, then length field. -/
+theorem checkHead_eq (length : Nat) (data : Bytes) :
+    checkHead length data =
+      if (length : Int) < 14 then .error .malformed
+      else if (byteAt data 0 &&& 240) ≠ 16 then .error .malformed
+      else if recordSize data ≠ (length : Int) - 14 then .error .badLength
+      else .ok () := by
+  simp only [checkHead, Gen.Row.guardOrder, runGuards, guard_size, guard_version, guard_length]
+  by_cases h1 : (length : Int) < 14
+  · simp [h1]
+  · by_cases h2 : (byteAt data 0 &&& 240) = 16
+    · by_cases h3 : recordSize data = (length : Int) - 14
+      · simp [h1, h2, h3]
+      · simp [h1, h2, h3]
+    · simp [h1, h2]
+
+/-- The decoder as one chain of tests. -/
+theorem checkFrame_eq (data : Bytes) :
+    checkFrame data =
+      if (data.length : Int) < 14 then .error .malformed
+      else if (byteAt data 0 &&& 240) ≠ 16 then .error .malformed
+      else if recordSize data ≠ (data.length : Int) - 14 then .error .badLength
+      else .ok (data.drop 14) := by
+  unfold checkFrame
+  rw [checkHead_eq]
+  by_cases h1 : (data.length : Int) < 14
+  · rw [if_pos h1, if_pos h1]
+  · rw [if_neg h1, if_neg h1]
+    by_cases h2 : (byteAt data 0 &&& 240) ≠ 16
+    · rw [if_pos h2, if_pos h2]
+    · rw [if_neg h2, if_neg h2]
+      by_cases h3 : recordSize data ≠ (data.length : Int) - 14
+      · rw [if_pos h3, if_pos h3]
+      · rw [if_neg h3, if_neg h3]; rfl
+
 /-- First guard, size part: anything shorter than the decoder's header size is malformed. -/
 theorem checkFrame_short (data : Bytes) (h : data.length < 14) :
     checkFrame data = .error .malformed := by
-  have : ((data.length : Nat) : Int) < ((Gen.Row.decHeaderSize : Nat) : Int) := by
-    simp [Gen.Row.decHeaderSize]; omega
-  simp [checkFrame, cmp_size, this]
+  rw [checkFrame_eq, if_pos (by omega)]
 
 /-- The decoder on a buffer with at least six explicit bytes and at least eight more. -/
 theorem checkFrame_cons (p0 p1 l0 l1 l2 l3 : UInt8) (rest : Bytes) (h : 8 ≤ rest.length) :
@@ -57,8 +106,8 @@ theorem checkFrame_cons (p0 p1 l0 l1 l2 l3 : UInt8) (rest : Bytes) (h : 8 ≤ re
       else .ok (rest.drop 8) := by
   have e1 : ((rest.length : Nat) : Int) + 1 + 1 + 1 + 1 + 1 + 1 - 14 = ((rest.length - 8 : Nat) : Int) := by omega
   have e2 : ¬ (((rest.length : Nat) : Int) + 1 + 1 + 1 + 1 + 1 + 1 < 14) := by omega
-  simp only [checkFrame, cmp_size, cmp_len, recordSize_cons, byteAt, List.getD_cons_zero,
-    Gen.Row.nibbleMask, Gen.Row.nibbleValue, Gen.Row.decHeaderSize, List.length_cons, Int.natCast_add,
+  rw [checkFrame_eq]
+  simp only [recordSize_cons, byteAt, List.getD_cons_zero, List.length_cons, Int.natCast_add,
     Int.cast_ofNat_Int, e1, e2]
   by_cases hn : (p0.toNat &&& 240) = 16
   · by_cases hw : wrap32 (len4 l0 l1 l2 l3) = ((rest.length - 8 : Nat) : Int)
@@ -96,17 +145,39 @@ theorem checkFrame_header (len ts : Nat) (body : Bytes) (h : len < 2147483648) :
   · simp [hl]
   · simp [hl]; omega
 
+/-- The extracted layout is prefix, length, clock, payload. -/
+theorem frameBytes_eq (len ts : Nat) (payload : Bytes) :
+    frameBytes len ts payload = header len ts ++ payload := by
+  simp [frameBytes, Gen.Row.frameLayout, part, header]
+
+/-- What `as_bytes` decides from the payload length and the clock. -/
+theorem frameDecision_eq (ts len : Nat) :
+    frameDecision ts len =
+      if len > 16777216 then some .tooLarge
+      else if len ≥ 4294967296 ∨ ts ≥ 18446744073709551616 then some .overflow
+      else none := by
+  have h4 : (256 : Nat) ^ 4 = 4294967296 := by decide
+  have h8 : (256 : Nat) ^ 8 = 18446744073709551616 := by decide
+  simp only [frameDecision, cmp_cap, Gen.Row.maxRecord, Gen.Row.lenWidth, Gen.Row.tsWidth, h4, h8]
+  by_cases h : len > 16777216
+  · have : (16777216 : Int) < (len : Int) := by omega
+    simp [h, this]
+  · have : (len : Int) ≤ 16777216 := by omega
+    simp [h, this]
+
 /-- What an emitted record looks like. -/
 theorem encodeFrame_ok {ts : Nat} {payload r : Bytes} (h : encodeFrame ts payload = .ok r) :
     payload.length ≤ 16777216 ∧ r = header payload.length ts ++ payload := by
   unfold encodeFrame at h
+  rw [frameDecision_eq, frameBytes_eq] at h
   split at h
-  · cases h
-  · split at h
-    · cases h
-    · rename_i h1 _
-      simp only [Gen.Row.maxRecord] at h1
-      injection h with h
+  · rename_i e he
+    cases h
+  · rename_i he
+    injection h with h
+    split at he
+    · cases he
+    · rename_i h1
       exact ⟨by omega, h.symm⟩
 
 theorem wrap32_len4_eq {l0 l1 l2 l3 : UInt8} {len : Nat} (hlen : len < 2147483648)
@@ -127,6 +198,30 @@ theorem decodeWith_ok {α : Type} (unpack : Bytes → Option α) {d p : Bytes}
     (h : checkFrame d = .ok p) :
     decodeWith unpack d = (match unpack p with | some v => .ok v | none => .error .payloadError) := by
   unfold decodeWith; rw [h]; rfl
+
+theorem exists_cons6 (data : Bytes) (h : 6 ≤ data.length) :
+    ∃ p0 p1 l0 l1 l2 l3 rest, data = p0 :: p1 :: l0 :: l1 :: l2 :: l3 :: rest := by
+  match data, h with
+  | p0 :: p1 :: l0 :: l1 :: l2 :: l3 :: rest, _ => exact ⟨p0, p1, l0, l1, l2, l3, rest, rfl⟩
+  | [], h | [_], h | [_, _], h | [_, _, _], h | [_, _, _, _], h | [_, _, _, _, _], h => simp at h
+
+theorem wrap32_lt (l0 l1 l2 l3 : UInt8) : wrap32 (len4 l0 l1 l2 l3) < 2147483648 := by
+  have h0 := l0.toNat_lt; have h1 := l1.toNat_lt; have h2 := l2.toNat_lt; have h3 := l3.toNat_lt
+  unfold wrap32 len4
+  split <;> omega
+
+theorem be4 (n : Nat) : be 4 n =
+    [UInt8.ofNat (n / 16777216), UInt8.ofNat (n / 65536), UInt8.ofNat (n / 256), UInt8.ofNat n] := by
+  simp [be]
+
+theorem xor_bit_ne (b : UInt8) (j : Nat) (hj : j < 8) : b ^^^ UInt8.ofNat (2 ^ j) ≠ b := by
+  intro h
+  have h2 : UInt8.ofNat (2 ^ j) = 0 := by
+    have := congrArg (fun x => b ^^^ x) h
+    simp only [← UInt8.xor_assoc, UInt8.xor_self, UInt8.zero_xor] at this
+    exact this
+  have : j = 0 ∨ j = 1 ∨ j = 2 ∨ j = 3 ∨ j = 4 ∨ j = 5 ∨ j = 6 ∨ j = 7 := by omega
+  rcases this with rfl | rfl | rfl | rfl | rfl | rfl | rfl | rfl <;> revert h2 <;> decide
 
 theorem pow_consts : (256 : Nat) ^ 4 = 4294967296 ∧ (256 : Nat) ^ 8 = 18446744073709551616
     ∧ (2 : Nat) ^ 64 = 18446744073709551616 := by decide
